@@ -657,7 +657,7 @@ func randNonZero(r *Rng, n int) []byte {
 	return b
 }
 
-var fillStrings = []string{"a", "idena", "héllo wörld ✓ 你好", "tab\tnew\nline \"quoted\" \x00nul", "Ünïcödé"}
+var fillStrings = []string{"\xff\xfe bad", "a", "idena", "héllo wörld ✓ 你好", "tab\tnew\nline \"quoted\" \x00nul", "Ünïcödé"}
 
 func (s *Schema) genUint(r *Rng, m FillMode, bits int, fkey string) uint64 {
 	max := ^uint64(0) >> uint(64-bits)
